@@ -121,6 +121,9 @@ def run_case(case):
         if err is not None:
             res.viol(what + "_raised", args=args, desc=desc, error=exc_str(err))
             return
+        if not isinstance(got, (list, tuple)) or not all(hasattr(p, "chunks") or isinstance(p, str) for p in got):
+            res.viol(what + "_result_is_not_a_list_of_pieces", args=args, desc=desc, got=repr(got)[:80])
+            return
         gt = [text_of(cells(p)) for p in got]
         if gt != want_text:
             res.viol(what + "_text_differs", args=args, desc=desc, got=gt, expected=want_text)
@@ -155,6 +158,12 @@ def run_case(case):
         evals += 1
         got, err = call(lambda: f.splitlines(keep))
         pieces_check("splitlines", [keep], got, err, s.splitlines(keep), piece_ranges_lines(s, keep))
+        if keep:
+            got, err = call(lambda: f.splitlines(keepends=True))
+            pieces_check("splitlines", ["keepends=True"], got, err, s.splitlines(True), piece_ranges_lines(s, True))
+        else:
+            got, err = call(lambda: f.splitlines())  # no argument: line ends are dropped, as with str
+            pieces_check("splitlines", [], got, err, s.splitlines(), piece_ranges_lines(s, False))
 
     def text_result_check(what, args, got, want, pad=()):
         """got: FmtStr; want: str; pad: positions of padding characters added by ljust/rjust without fillchar -
